@@ -88,7 +88,14 @@ def batch_case(draw):
     orders = [draw(st.permutations(list(range(n)))) for _ in range(draw(st.integers(1, 3)))]
     subsets = [draw(st.lists(st.integers(0, n - 1), min_size=1, max_size=n, unique=True))
                for _ in range(draw(st.integers(0, 1)))]
-    return {'eq': eq, 'topo': topo, 'truth': truth, 'requests': reqs, 'orders': [list(o) for o in orders] + subsets}
+    # process-wide simulation parameters: mostly the default GN model; sometimes a GGN method whose computed channels are
+    # given as a list or as a number (the list is then derived from each request's own comb)
+    nli = draw(st.sampled_from([None] * 7 + [{'method': 'ggn_approx', 'computed_number_of_channels': 3},
+                                {'method': 'ggn_approx', 'computed_number_of_channels': 5},
+                                {'method': 'ggn_approx', 'computed_channels': [1, 4, 9]}]))
+    sim = {} if nli is None else {'nli_params': dict({'dispersion_tolerance': 4, 'phase_shift_tolerance': 0.1}, **nli)}
+    return {'eq': eq, 'topo': topo, 'truth': truth, 'requests': reqs, 'orders': [list(o) for o in orders] + subsets,
+            'sim': sim}
 
 
 def digest(obj, depth=0, seen=None):
@@ -166,7 +173,17 @@ def same(a, b):
 def run(case, ctx):
     from gnpy.tools.worker_utils import designed_network, planning
     from gnpy.tools.json_io import network_to_json
-    netgen.reset_sim_params()
+    sim = case.get('sim') or {}
+    netgen.reset_sim_params(sim)
+    try:
+        _run(case, ctx, sim)
+    finally:
+        netgen.reset_sim_params()
+
+
+def _run(case, ctx, sim):
+    from gnpy.tools.worker_utils import designed_network, planning
+    from gnpy.tools.json_io import network_to_json
     try:
         equipment, network = netgen.build_network(case['eq'], case['topo'])
         designed_network(equipment, network)
@@ -193,6 +210,7 @@ def run(case, ctx):
     try:
         for i in range(len(reqs)):
             net_i, eq_i = copy.deepcopy(network), netgen.load_equipment(case['eq'])
+            netgen.reset_sim_params(sim)     # "alone" = in a process that computed nothing before
             oms, pths, rpths, rqs, dsjn, res = planning(net_i, eq_i, {'path-request': [rq_json(i)]})
             base[i] = summarise(rqs[0], pths[0], rpths[0])
             if base[i]['reason']:
@@ -208,7 +226,10 @@ def run(case, ctx):
             raise
         ctx.label('skipped:baseline-failed:' + type(e).__name__)
         return
-    # ---- the same network object for every ordering
+    # ---- the same network object (and the same process-wide state) for every ordering
+    netgen.reset_sim_params(sim)
+    if sim:
+        ctx.label('nli:' + sim['nli_params']['method'] + (':number' if 'computed_number_of_channels' in sim['nli_params'] else ':list'))
     for order in case['orders']:
         data = {'path-request': [rq_json(i) for i in order]}
         oms, pths, rpths, rqs, dsjn, res = planning(network, equipment, data)
